@@ -17,12 +17,17 @@ import (
 // inside their critical sections at the same time only if every common
 // resource was requested for reading by both; nobody deadlocks; everybody
 // gets in.
-func ZZVerifC15Locks() {
-	nd.Schedule(nd.Param("P", 2))
+func ZZVerifC15Locks() { zzLocks(nd.Param("P", 2), nd.Param("H", 2), nd.Param("R", 2)) }
+
+// ZZVerifC15FirstUse: the same with ONE resource name that nobody has used
+// before and a deeper preemption bound: the holders' very first requests for
+// a name meet inside the look-up/creation of its lock.
+func ZZVerifC15FirstUse() { zzLocks(nd.Param("FP", 2), nd.Param("FH", 2), 1) }
+
+func zzLocks(pb, h, r int) {
+	nd.Schedule(pb)
 	nd.Races()
 	nd.MapOrder()
-	h := nd.Param("H", 2)
-	r := nd.Param("R", 2)
 	// resource names: distinct symbolic 1-byte strings
 	names := make([]string, r)
 	for i := range names {
